@@ -99,6 +99,7 @@ type refServer struct {
 	sessionID string // prefix of the session ids: every initialize (legacy: every connect) is handed a fresh one
 	ts        *httptest.Server
 	baseURL   string
+	gate      *gateListener
 	quit      chan struct{}
 
 	mu      sync.Mutex
@@ -132,34 +133,54 @@ func (s *refServer) start() *refServer {
 	return s
 }
 
-// reserve picks a loopback address and leaves it closed: connections are refused until startReserved.
+// gateListener hangs up on every connection it accepts until it is opened. (The address stays ours all the
+// time: closing the listener and binding the port again later lets any other process on the machine take it.)
+type gateListener struct {
+	net.Listener
+	mu   sync.Mutex
+	open bool
+}
+
+func (g *gateListener) Accept() (net.Conn, error) {
+	for {
+		c, err := g.Listener.Accept()
+		if err != nil {
+			return nil, err
+		}
+		g.mu.Lock()
+		open := g.open
+		g.mu.Unlock()
+		if open {
+			return c, nil
+		}
+		if tc, ok := c.(*net.TCPConn); ok {
+			_ = tc.SetLinger(0) // reset instead of an orderly close: the client sees a transport error at once
+		}
+		_ = c.Close()
+	}
+}
+
+// reserve serves on a fresh loopback port but hangs up on every connection before reading anything, until
+// startReserved: no request gets through (none is recorded), the client sees a transport error.
 func (s *refServer) reserve() error {
 	l, err := net.Listen("tcp", "127.0.0.1:0")
 	if err != nil {
 		return err
 	}
-	s.baseURL = "http://" + l.Addr().String()
-	return l.Close()
-}
-
-// startReserved opens the listener on the reserved address.
-func (s *refServer) startReserved() error {
-	addr := strings.TrimPrefix(s.baseURL, "http://")
-	var l net.Listener
-	var err error
-	for i := 0; i < 100; i++ {
-		if l, err = net.Listen("tcp", addr); err == nil {
-			break
-		}
-		time.Sleep(5 * time.Millisecond)
-	}
-	if err != nil {
-		return err
-	}
+	s.gate = &gateListener{Listener: l}
 	s.ts = httptest.NewUnstartedServer(s)
 	_ = s.ts.Listener.Close()
-	s.ts.Listener = l
+	s.ts.Listener = s.gate
 	s.ts.Start()
+	s.baseURL = s.ts.URL
+	return nil
+}
+
+// startReserved lets connections through from now on.
+func (s *refServer) startReserved() error {
+	s.gate.mu.Lock()
+	s.gate.open = true
+	s.gate.mu.Unlock()
 	return nil
 }
 
